@@ -75,7 +75,7 @@ mod harness {
     #[kani::unwind(8)]
     fn h_binding_suggestions() {
         unsafe { SCORES = [any_score(), any_score(), any_score()]; }
-        let (p1, p2) = (any_perm(), any_perm());
+        let (p1, p2) = (any_perm(), [0usize, 1, 2]);   // every order against the canonical one (equality is transitive)
         let e1 = Context(ContextInternals { bindings: Bindings { order: p1 } }).binding(IStr("kx"));
         let e2 = Context(ContextInternals { bindings: Bindings { order: p2 } }).binding(IStr("kx"));
         match (e1, e2) {
